@@ -58,11 +58,16 @@ def run_c09(prop, tier, seed):
                "rule": "a case is one (n,t) pair: TLC checks Partition + ClosedForm on the transcription; the real ChunkSlice result "
                        "(run-length form) and VBucketDiscovery.Get per member are judged by MonChunk.tla"}
         viol = 0
-        if bad:
+        cov["history_calls_on_one_discovery_object"] = summ.get("history_calls", 0)
+        cov["history_mismatches"] = summ.get("history_mismatches", 0)
+        if bad or summ.get("history_mismatches"):
             rp = os.path.join(vlib.VERIF, "evidence", "replay"); os.makedirs(rp, exist_ok=True)
             dst = os.path.join(rp, "C09-pairs.json")
-            json.dump({"family": "chunk", "violating_pairs": len(bad), "smallest": bad[0]}, open(dst, "w"))
-            viol = len(bad)
+            json.dump({"family": "chunk", "violating_pairs": len(bad), "smallest": bad[0] if bad else None,
+                       "history_mismatches": summ.get("history_mismatches"), "first": summ.get("first_mismatch")}, open(dst, "w"))
+            viol = len(bad) + summ.get("history_mismatches", 0)
+            if not bad:
+                bad = [("history", summ.get("first_mismatch"))]
         evidence(prop, tier, seed, "model_checking", cov,
                  ["helpers.ChunkSlice and VBucketDiscovery.Get with static membership are the code under test; the transcription in "
                   "Chunk.tla is checked against them pair by pair", "TLC and the Go harness are trusted"], time.time() - t0, viol)
@@ -113,14 +118,33 @@ def health_patterns(tier, seed):
                     phase = "wait"
         if stop_at is None:
             return labels + seq + ([{"a": "Quiesce"}] if phase != "dead" else [])
+        if stop_at > len(seq) or (phase == "dead" and stop_at >= len(seq)):
+            return None
         pre = seq[:stop_at]
         out = labels + pre + [{"a": "Stop"}]
         if pre and pre[-1]["a"] in ("Tick", "Retry"):          # a ping is in flight: it returns, then Stop returns
-            out.append({"a": "PingRet", "ok": rnd.random() < 0.5})
+            fails = 0
+            for x in reversed(pre[:-1]):
+                if x["a"] == "PingRet" and not x["ok"]:
+                    fails += 1
+                elif x["a"] == "PingRet":
+                    break
+            out.append({"a": "PingRet", "ok": True if fails >= 4 else rnd.random() < 0.5})
         return out + [{"a": "Stop"}, {"a": "Start"}, {"a": "Quiesce"}]
 
     out = []
     for bits in itertools.product([False, True], repeat=5):
+        out.append(play(bits))
+    # many rounds: five and more failures over the life of the checker, never five in a row within one round
+    F, S = False, True
+    longs = [(F, S) * 5, (F, F, F, F, S, F, S), (F, F, S, F, F, S, F, F, S), (F, F, F, S, F, F, F, S), (S, F, F, F, F, S, F, F, F, F, S)]
+    for k in range(3 if tier == "quick" else 40):
+        l = []
+        while sum(1 for x in l if not x) < 6:
+            run = rnd.randint(1, 4)
+            l += [F] * run + [S]
+        longs.append(tuple(l))
+    for bits in longs:
         out.append(play(bits))
     for bits in itertools.product([False, True], repeat=5):
         n = len(play(bits)) - 2
@@ -129,7 +153,9 @@ def health_patterns(tier, seed):
         if tier == "quick":
             positions = sorted(set(rnd.sample(list(positions), min(3, len(positions)))))
         for pos in positions:
-            out.append(play(bits, pos))
+            sc = play(bits, pos)
+            if sc:
+                out.append(sc)
     return out
 
 
